@@ -61,6 +61,12 @@ type ShardTrace struct {
 	ExtraSeen bool
 	FirstPostSeq int // first POST of any kind other than the config push
 	InSync   bool
+	// Truth, when non-nil, is what the harness knows the shard is scraping at the
+	// start of the cycle (scripted copies, or the real sidecar's state), whether
+	// or not the coordinator asked for it. StatusWouldAnswer: its status endpoint
+	// answers when asked.
+	Truth             map[uint64]string
+	StatusWouldAnswer bool
 }
 
 type ReplicaTrace struct {
